@@ -65,6 +65,8 @@ func runC05(l *core.Ledger) {
 	})
 	l.Rule("C05-M11", "the sender answers a request it does not send in its own iteration, under the id of the request it has just dequeued (C07-E3 re-run): an answer routed later (another goroutine, a shared variable) is routed under the id of whatever request was dequeued meanwhile")
 	l.With(map[string]string{"C07-E3": "C05-M11"}, func() { c07E3(l, r) })
+	l.Rule("C05-M12", "only the stream reader, on its own read error, answers calls it has no request in hand for (C10-N6 re-run): any other site that fails every pending call of a node hands made-up errors to calls whose requests are on a healthy stream, removes their routers, and their real replies are dropped")
+	l.With(map[string]string{"C10-N6": "C05-M12"}, func() { c10N6(l, r) })
 	c05M5(l, r)
 	c05M6(l, r, eps)
 	checkResponseProvenance(l, r, "C05-M7")
